@@ -42,6 +42,72 @@ def _escape_fn(ctx, fn: Func, call: ast.Call, sep: str) -> Optional[Func]:
     return None
 
 
+def _replace_chain(e: ast.AST) -> List[Tuple[str, str]]:
+    """[(old, new), ...] of a `x.replace(a, b).replace(c, d)` chain, innermost first."""
+    out: List[Tuple[str, str]] = []
+    while isinstance(e, ast.Call) and isinstance(e.func, ast.Attribute) and e.func.attr == "replace" and len(e.args) >= 2:
+        a, b = const_str(e.args[0]), const_str(e.args[1])
+        if a is None or b is None:
+            break
+        out.append((a, b))
+        e = e.func.value
+    out.reverse()
+    return out
+
+
+def _escaper_total(ctx, ef: Func, sep: str) -> None:
+    """Every return of the escaper must apply the complete escaping (escape
+    character first, then the separator) unless the dominating guards establish
+    that the key contains neither character."""
+    cfg = ctx.cfg(ef)
+    rd = ctx.rd(ef)
+    param = ef.params[0] if ef.params else None
+    rets = [n for n in cfg.nodes if n.kind == "stmt" and isinstance(n.ast, ast.Return) and n.ast.value is not None and n in cfg.reachable_from_entry()]
+    # the escape character is whatever the separator is prefixed with
+    esc = None
+    for x in walk_no_defs(ef.node):
+        if isinstance(x, ast.Call):
+            for a, b in _replace_chain(x):
+                if a == sep and b.endswith(sep) and len(b) > len(sep):
+                    esc = b[: -len(sep)]
+    if esc is None:
+        ctx.violation("C07.CODEC", f"{ef.qual}/escape-shape", ef.loc(), f"escaper does not map {sep!r} to <esc>{sep!r}")
+        return
+    for r in rets:
+        inl = rd.inline(r.ast.value, r)
+        chain = _replace_chain(inl)
+        i_esc = next((i for i, (a, b) in enumerate(chain) if a == esc and b == esc + esc), None)
+        i_sep = next((i for i, (a, b) in enumerate(chain) if a == sep and b == esc + sep), None)
+        key = f"{ef.qual}/escaper-total:{src(r.ast.value)[:40]}"
+        if i_esc is not None and i_sep is not None and i_esc < i_sep:
+            ctx.holds("C07.CODEC", key, ef.loc(r.ast), f"returns the key with {esc!r} doubled first and {sep!r} escaped after")
+            continue
+        if i_esc is not None and i_sep is not None:
+            ctx.violation("C07.CODEC", key, ef.loc(r.ast),
+                          f"escaper escapes {sep!r} before doubling {esc!r}: the escape characters it just inserted are doubled again (not invertible)")
+            continue
+        # an unescaped return is fine only where both characters are known to be absent
+        facts = cfg.facts(r)
+        def absent(ch: str) -> bool:
+            for a_src, pol in facts:
+                try:
+                    a = ast.parse(a_src, mode="eval").body
+                except SyntaxError:
+                    continue
+                if isinstance(a, ast.Compare) and len(a.ops) == 1 and const_str(a.left) == ch and isinstance(a.comparators[0], ast.Name) \
+                        and a.comparators[0].id == param:
+                    if (isinstance(a.ops[0], ast.NotIn) and pol) or (isinstance(a.ops[0], ast.In) and not pol):
+                        return True
+            return False
+        need = [ch for ch, i in ((esc, i_esc), (sep, i_sep)) if i is None]
+        missing = [ch for ch in need if not absent(ch)]
+        ctx.check(not missing, "C07.CODEC", key, ef.loc(r.ast),
+                  f"unescaped return only where the key is known to contain neither {esc!r} nor {sep!r}",
+                  f"escaper returns `{src(r.ast.value)[:40]}` on a path where the key may still contain {missing}: the decoder treats "
+                  f"{esc!r}x as a literal x, so such a key is rebuilt as a different key",
+                  ctx.path_witness(ef, cfg.path([cfg.entry], lambda n: n is r)))
+
+
 def rule_codec(ctx) -> None:
     m = ctx.prog.module(SD)
     ctx.analysed_modules.add(SD)
@@ -75,6 +141,13 @@ def rule_codec(ctx) -> None:
             for y in ast.walk(e):
                 if isinstance(y, ast.Call) and _escape_fn(ctx, fn, y, sep) is not None:
                     escaped = True
+        if escaped:
+            for e in comps:
+                for y in ast.walk(e):
+                    if isinstance(y, ast.Call):
+                        ef = _escape_fn(ctx, fn, y, sep)
+                        if ef is not None:
+                            _escaper_total(ctx, ef, sep)
         ctx.check(escaped, "C07.CODEC", f"{fn.qual}/join:{sep!r}", fn.loc(c),
                   f"path components are escaped for {sep!r} before being joined",
                   f"dictionary keys are joined with {sep!r} without escaping: a key containing {sep!r} (node/edge ids are user-controlled) "
@@ -94,7 +167,7 @@ def rule_codec(ctx) -> None:
                         if r and r[0] == "func" and r[1].startswith(SD + ":"):
                             g = ctx.prog.funcs[r[1]]
                             consts = {y.value for y in ast.walk(g.node) if isinstance(y, ast.Constant) and isinstance(y.value, str)}
-                            if seps & consts:
+                            if seps & consts and "\\" in consts:
                                 aware = True
         ctx.check(aware, "C07.CODEC", f"{SD}/escape-aware-decoder", "snapshot_delta.py",
                   "the decoder obtains path components from a separator-aware splitter of this module",
